@@ -1,5 +1,5 @@
 (* NamesProofs.v — proofs about Case.v / Names.v (property C14). *)
-From Coq Require Import ZArith NArith List Bool String Ascii Lia Arith.
+From Coq Require Import ZArith NArith List Bool String Ascii Lia Arith Wf_nat.
 From DD Require Import Common Mir GenErr Case Names.
 Import ListNotations.
 Open Scope string_scope.
@@ -142,3 +142,1381 @@ Theorem search_finds_declared : forall objs o,
   In o (preorder_objects objs) ->
   search_object (object_name o) objs = Some o.
 Proof. intros objs o Hnd Hin. rewrite search_object_find. apply find_unique; assumption. Qed.
+
+
+
+(* ================================================================== *)
+(* "insert everything into a set, fail on the first collision"         *)
+(* ================================================================== *)
+
+Section Fresh.
+  Context {A : Type} (eqb : A -> A -> bool).
+  Context (eqb_spec : forall a b, eqb a b = true <-> a = b).
+
+  Definition memb (x : A) (l : list A) : bool := existsb (eqb x) l.
+
+  Fixpoint fresh_walk (seen l : list A) : bool :=
+    match l with
+    | [] => true
+    | x :: t => negb (memb x seen) && fresh_walk (x :: seen) t
+    end.
+
+  Lemma memb_in x l : memb x l = true <-> In x l.
+  Proof.
+    unfold memb. rewrite existsb_exists. split.
+    - intros (y & Hy & E). apply eqb_spec in E. subst. assumption.
+    - intros H. exists x. split; [assumption|]. apply eqb_spec. reflexivity.
+  Qed.
+
+  Lemma memb_false x l : memb x l = false <-> ~ In x l.
+  Proof.
+    rewrite <- memb_in. destruct (memb x l); split; intro H.
+    - discriminate.
+    - exfalso. apply H. reflexivity.
+    - intro H2. discriminate.
+    - reflexivity.
+  Qed.
+
+  Lemma fresh_walk_spec : forall l seen,
+    fresh_walk seen l = true <-> (forall x, In x l -> ~ In x seen) /\ NoDup l.
+  Proof.
+    induction l as [|x t IH]; intros seen; cbn.
+    - split; [intros _; split; [intros ? []|constructor]|reflexivity].
+    - rewrite andb_true_iff, negb_true_iff, memb_false, IH. split.
+      + intros (Hx & Hd & Hnd). split.
+        * intros y [<-|Hy]; [assumption|]. intros Hs. apply (Hd y Hy). right. assumption.
+        * constructor; [|assumption]. intros Hin. apply (Hd x Hin). left. reflexivity.
+      + intros (Hd & Hnd). inversion Hnd; subst. repeat split.
+        * apply Hd. left. reflexivity.
+        * intros y Hy [<-|Hs]; [contradiction|]. apply (Hd y); [right|]; assumption.
+        * assumption.
+  Qed.
+
+  Lemma fresh_walk_app : forall l1 l2 seen,
+    fresh_walk seen (l1 ++ l2)%list = fresh_walk seen l1 && fresh_walk (rev l1 ++ seen)%list l2.
+  Proof.
+    induction l1 as [|x t IH]; intros l2 seen; cbn; [reflexivity|].
+    rewrite IH, <- app_assoc, andb_assoc. reflexivity.
+  Qed.
+
+  Lemma fresh_walk_nodup l : fresh_walk [] l = true <-> NoDup l.
+  Proof. rewrite fresh_walk_spec. split; [intros [_ H]; exact H|intros H; split; [intros ? _ []|exact H]]. Qed.
+End Fresh.
+
+Lemma cfg_eqb_spec a b : cfg_eqb a b = true <-> a = b.
+Proof.
+  destruct a as [x|], b as [y|]; cbn; try (split; congruence).
+  rewrite String.eqb_eq. split; congruence.
+Qed.
+
+Lemma uid_eqb_spec (a b : uid) : uid_eqb a b = true <-> a = b.
+Proof.
+  destruct a as [n c], b as [n' c']. unfold uid_eqb. cbn.
+  rewrite andb_true_iff, String.eqb_eq, cfg_eqb_spec. split; [intros [-> ->]; reflexivity|intros H; inversion H; auto].
+Qed.
+
+Lemma str_eqb_spec (a b : string) : String.eqb a b = true <-> a = b.
+Proof. apply String.eqb_eq. Qed.
+
+Lemma mem_uid_memb x l : mem_uid x l = memb uid_eqb x l.
+Proof. reflexivity. Qed.
+Lemma mem_str_memb x l : mem_str x l = memb String.eqb x l.
+Proof. reflexivity. Qed.
+
+Definition vid (v : variant) : uid := (v_name v, v_cfg v).
+Definition eid (e : enum_def) : uid := (e_name e, e_cfg e).
+
+Notation fresh_u := (fresh_walk uid_eqb).
+Notation fresh_s := (fresh_walk String.eqb).
+
+(* ---------- check_variants ---------- *)
+
+Lemma check_variants_spec : forall vs seen en obj fld,
+  check_variants seen vs en obj fld = None <-> fresh_u seen (map vid vs) = true.
+Proof.
+  induction vs as [|v t IH]; intros seen en obj fld; cbn; [split; reflexivity|].
+  rewrite mem_uid_memb. fold (vid v). destruct (memb uid_eqb (vid v) seen); cbn.
+  - split; discriminate.
+  - apply IH.
+Qed.
+
+(* ---------- check_fields ---------- *)
+
+Definition variants_ok (e : enum_def) : bool := fresh_u [] (map vid (e_variants e)).
+
+Lemma field_enums_cons f t :
+  field_enums (f :: t) = (match f_conv f with Some (ConvEnum e _) => [e] | _ => [] end ++ field_enums t)%list.
+Proof. reflexivity. Qed.
+
+Lemma check_fields_spec : forall fs seen gen obj gen',
+  check_fields seen gen fs obj = ROk gen' <->
+  fresh_s seen (map f_name fs) = true /\
+  fresh_u gen (map eid (field_enums fs)) = true /\
+  forallb variants_ok (field_enums fs) = true /\
+  gen' = (rev (map eid (field_enums fs)) ++ gen)%list.
+Proof.
+  induction fs as [|f t IH]; intros seen gen obj gen'.
+  - cbn. split; [intros H; inversion H; auto|intros (_ & _ & _ & ->); reflexivity].
+  - cbn [check_fields map fresh_walk]. rewrite field_enums_cons, mem_str_memb.
+    destruct (memb String.eqb (f_name f) seen); cbn [negb andb].
+    + split; [discriminate|intros (H & _); discriminate].
+    + destruct (f_conv f) as [[tn ut|e ut]|]; cbn [app map fresh_walk forallb rev].
+      * rewrite IH. reflexivity.
+      * rewrite mem_uid_memb. fold (eid e). destruct (memb uid_eqb (eid e) gen); cbn [negb andb].
+        -- split; [discriminate|intros (_ & H & _); discriminate].
+        -- destruct (check_variants [] (e_variants e) (e_name e) obj (f_name f)) eqn:E.
+           ++ assert (variants_ok e = false) as ->.
+              { unfold variants_ok. destruct (fresh_u [] (map vid (e_variants e))) eqn:E2; [|reflexivity].
+                apply check_variants_spec with (en := e_name e) (obj := obj) (fld := f_name f) in E2. congruence. }
+              cbn. split; [discriminate|intros (_ & _ & H & _); discriminate].
+           ++ apply check_variants_spec in E. unfold variants_ok at 1. rewrite E. cbn [andb].
+              rewrite IH. rewrite <- app_assoc. cbn. reflexivity.
+      * rewrite IH. reflexivity.
+Qed.
+
+Lemma check_fields_total : forall fs seen gen obj,
+  (exists gen', check_fields seen gen fs obj = ROk gen') \/ (exists e, check_fields seen gen fs obj = RErr e).
+Proof. intros. destruct (check_fields seen gen fs obj); [left|right]; eexists; reflexivity. Qed.
+
+(* ---------- check_sets ---------- *)
+
+Definition sets_enums (sets : list (list field)) : list enum_def := flat_map field_enums sets.
+
+Lemma check_sets_spec : forall sets gen obj gen',
+  check_sets gen sets obj = ROk gen' <->
+  forallb (fun fs => fresh_s [] (map f_name fs)) sets = true /\
+  fresh_u gen (map eid (sets_enums sets)) = true /\
+  forallb variants_ok (sets_enums sets) = true /\
+  gen' = (rev (map eid (sets_enums sets)) ++ gen)%list.
+Proof.
+  induction sets as [|fs t IH]; intros gen obj gen'.
+  - cbn. split; [intros H; inversion H; auto|intros (_ & _ & _ & ->); reflexivity].
+  - cbn [check_sets]. unfold sets_enums. cbn [flat_map forallb]. fold (sets_enums t).
+    rewrite map_app, fresh_walk_app, forallb_app, rev_app_distr, <- app_assoc.
+    destruct (check_fields [] gen fs obj) as [g1|e] eqn:E; cbn [rbind].
+    + apply check_fields_spec in E. destruct E as (E1 & E2 & E3 & ->).
+      rewrite IH, E1, E2, E3. cbn [andb]. reflexivity.
+    + split; [discriminate|]. intros (H1 & H2 & H3 & _).
+      apply andb_true_iff in H1, H2, H3. destruct H1 as [H1 _], H2 as [H2 _], H3 as [H3 _].
+      assert (check_fields [] gen fs obj = ROk (rev (map eid (field_enums fs)) ++ gen)%list) as X
+        by (apply check_fields_spec; auto).
+      congruence.
+Qed.
+
+(* ---------- unique_walk ---------- *)
+
+Definition fields_okb (os : list object) : bool :=
+  forallb (fun o => forallb (fun fs => fresh_s [] (map f_name fs)) (object_field_sets o)) os.
+
+Lemma device_enums_cons o t : device_enums (o :: t) = (sets_enums (object_field_sets o) ++ device_enums t)%list.
+Proof. reflexivity. Qed.
+
+Lemma unique_walk_spec : forall os seen gen,
+  unique_walk seen gen os = None <->
+  fresh_u seen (map object_uid os) = true /\
+  fields_okb os = true /\
+  fresh_u gen (map eid (device_enums os)) = true /\
+  forallb variants_ok (device_enums os) = true.
+Proof.
+  induction os as [|o t IH]; intros seen gen.
+  - cbn. split; auto.
+  - cbn [unique_walk map fresh_walk fields_okb forallb]. fold (fields_okb t).
+    rewrite device_enums_cons, map_app, fresh_walk_app, forallb_app, mem_uid_memb.
+    destruct (memb uid_eqb (object_uid o) seen); cbn [negb andb].
+    + split; [discriminate|intros (H & _); discriminate].
+    + destruct (check_sets gen (object_field_sets o) (object_name o)) as [g1|e] eqn:E.
+      * apply check_sets_spec in E. destruct E as (E1 & E2 & E3 & ->).
+        rewrite IH, E1, E2, E3. cbn [andb]. reflexivity.
+      * split; [discriminate|]. intros (_ & H1 & H2 & H3).
+        apply andb_true_iff in H1, H2, H3. destruct H1 as [H1 _], H2 as [H2 _], H3 as [H3 _].
+        assert (check_sets gen (object_field_sets o) (object_name o) =
+                ROk (rev (map eid (sets_enums (object_field_sets o))) ++ gen)%list) as X
+          by (apply check_sets_spec; auto).
+        congruence.
+Qed.
+
+Definition uniqueb (os : list object) : bool :=
+  fresh_u [] (map object_uid os) && fields_okb os &&
+  fresh_u [] (map eid (device_enums os)) && forallb variants_ok (device_enums os).
+
+Lemma names_unique_spec d :
+  names_unique d = None <-> uniqueb (preorder_objects (d_objects d)) = true.
+Proof.
+  unfold names_unique, uniqueb. rewrite unique_walk_spec, !andb_true_iff. tauto.
+Qed.
+
+
+
+(* ================================================================== *)
+(* refs_validated                                                      *)
+(* ================================================================== *)
+
+Lemma okind_eqb_spec a b : okind_eqb a b = true <-> a = b.
+Proof. destruct a, b; cbn; split; congruence. Qed.
+
+Lemma map_insert_keys : forall m k v t,
+  In t (map fst (map_insert k v m)) <-> t = k \/ In t (map fst m).
+Proof.
+  induction m as [|[k' v'] m IH]; intros k v t; cbn.
+  - split; [intros [H|[]]; auto|intros [H|[]]; auto].
+  - destruct (String.eqb k k') eqn:E; cbn.
+    + apply String.eqb_eq in E. subst. split; [intros [H|H]; auto|intros [H|[H|H]]; auto].
+    + rewrite IH. split; [intros [H|[H|H]]; auto|intros [H|[H|H]]; auto].
+Qed.
+
+Definition ref_of_kind (k : okind) (t : string) (os : list object) : Prop :=
+  exists c n ov, In (ORef c n ov) os /\ override_kind ov = k /\ override_target ov = t.
+
+Lemma reffed_keys : forall os k m t,
+  In t (map fst (reffed k os m)) <-> In t (map fst m) \/ ref_of_kind k t os.
+Proof.
+  induction os as [|o os IH]; intros k m t.
+  - cbn. split; [auto|intros [H|(c & n & ov & [] & _)]; assumption].
+  - assert (Hskip : (forall c n ov, o <> ORef c n ov) ->
+              (In t (map fst (reffed k os m)) <-> In t (map fst m) \/ ref_of_kind k t (o :: os))).
+    { intros Hn. rewrite IH. split; intros [H|(c & n & ov & Hin & Hk & Ht)]; auto.
+      - right. exists c, n, ov. split; [right; assumption|auto].
+      - destruct Hin as [Heq|Hin]; [exfalso; eapply Hn; eauto|]. right. exists c, n, ov. auto. }
+    destruct o; cbn [reffed]; try (apply Hskip; intros; discriminate).
+    destruct (okind_eqb (override_kind ov) k) eqn:E.
+    + apply okind_eqb_spec in E. rewrite IH, map_insert_keys. split.
+      * intros [[->|H]|(c0 & n & ov0 & Hin & Hk & Ht)]; auto.
+        -- right. exists c, name, ov. split; [left; reflexivity|auto].
+        -- right. exists c0, n, ov0. split; [right; assumption|auto].
+      * intros [H|(c0 & n & ov0 & [Heq|Hin] & Hk & Ht)]; auto.
+        -- inversion Heq; subst. left. left. reflexivity.
+        -- right. exists c0, n, ov0. auto.
+    + rewrite IH. split; intros [H|(c0 & n & ov0 & Hin & Hk & Ht)]; auto.
+      * right. exists c0, n, ov0. split; [right; assumption|auto].
+      * destruct Hin as [Heq|Hin].
+        -- inversion Heq; subst.
+           assert (okind_eqb (override_kind ov0) (override_kind ov0) = true) by (apply okind_eqb_spec; reflexivity).
+           congruence.
+        -- right. exists c0, n, ov0. auto.
+Qed.
+
+Definition has_real (k : okind) (t : string) (os : list object) : Prop :=
+  exists o, In o os /\ object_kind o = k /\ object_name o = t.
+
+Lemma real_names_spec k t os : mem_str t (real_names k os) = true <-> has_real k t os.
+Proof.
+  rewrite mem_str_memb, (memb_in String.eqb str_eqb_spec). unfold real_names, has_real.
+  rewrite in_map_iff. split.
+  - intros (o & Hn & Hin). apply filter_In in Hin. destruct Hin as [Hin Hk].
+    apply okind_eqb_spec in Hk. exists o. auto.
+  - intros (o & Hin & Hk & Hn). exists o. split; [assumption|]. apply filter_In. split; [assumption|].
+    apply okind_eqb_spec. assumption.
+Qed.
+
+Lemma map_filter_nil {A B} (f : A -> B) p (l : list A) :
+  map f (filter p l) = [] <-> forall x, In x l -> p x = false.
+Proof.
+  induction l as [|x t IH]; cbn; [split; [intros _ ? []|reflexivity]|].
+  destruct (p x) eqn:E; cbn.
+  - split; [discriminate|]. intros H. rewrite (H x (or_introl eq_refl)) in E. discriminate.
+  - rewrite IH. split; [intros H y [<-|Hy]; auto|intros H y Hy; apply H; right; assumption].
+Qed.
+
+Lemma dangling_nil k os :
+  dangling k os = [] <-> (forall t, ref_of_kind k t os -> has_real k t os).
+Proof.
+  unfold dangling. rewrite map_filter_nil. split.
+  - intros H t Hr. apply real_names_spec.
+    assert (In t (map fst (reffed k os []))) as Hin by (apply reffed_keys; right; assumption).
+    apply in_map_iff in Hin. destruct Hin as ([t' r] & Ht & Hin). cbn in Ht. subst.
+    specialize (H _ Hin). cbn in H. apply negb_false_iff in H. assumption.
+  - intros H [t r] Hin. cbn. apply negb_false_iff. apply real_names_spec. apply H.
+    assert (In t (map fst (reffed k os []))) as Hk by (apply in_map_iff; exists (t, r); auto).
+    apply reffed_keys in Hk. destruct Hk as [[]|Hk]. assumption.
+Qed.
+
+Lemma dangling_cons k os e l :
+  dangling k os = e :: l -> exists t, ref_of_kind k t os /\ ~ has_real k t os.
+Proof.
+  unfold dangling. intros H.
+  assert (In e (map (fun tr => mk_err "ref_unknown" [kind_word k; snd tr; fst tr])
+                    (filter (fun tr => negb (mem_str (fst tr) (real_names k os))) (reffed k os []))))
+    as Hin by (rewrite H; left; reflexivity).
+  apply in_map_iff in Hin. destruct Hin as ([t r] & _ & Hin). apply filter_In in Hin.
+  destruct Hin as [Hin Hneg]. cbn in Hneg. exists t. split.
+  - assert (In t (map fst (reffed k os []))) as Hk by (apply in_map_iff; exists (t, r); auto).
+    apply reffed_keys in Hk. destruct Hk as [[]|Hk]. assumption.
+  - intros Hr. apply real_names_spec in Hr. rewrite Hr in Hneg. discriminate.
+Qed.
+
+Definition refs_ok (os : list object) : Prop :=
+  forall c n ov, In (ORef c n ov) os -> has_real (override_kind ov) (override_target ov) os.
+
+Definition a_bad_ref (os : list object) : Prop :=
+  exists c n ov, In (ORef c n ov) os /\ ~ has_real (override_kind ov) (override_target ov) os.
+
+Lemma override_kind_cases ov : override_kind ov = KBlock \/ override_kind ov = KRegister \/ override_kind ov = KCommand.
+Proof. destruct ov; cbn; auto. Qed.
+
+Lemma refs_validated_ok_true d :
+  refs_validated_ok d = true <-> refs_ok (preorder_objects (d_objects d)).
+Proof.
+  unfold refs_validated_ok, refs_candidates. set (os := preorder_objects (d_objects d)).
+  split.
+  - intros H c n ov Hin.
+    destruct (dangling KBlock os) eqn:E1; [|discriminate].
+    destruct (dangling KRegister os) eqn:E2; [|discriminate].
+    destruct (dangling KCommand os) eqn:E3; [|discriminate].
+    destruct (override_kind_cases ov) as [K|[K|K]]; rewrite K.
+    + eapply dangling_nil; [exact E1|]. exists c, n, ov. auto.
+    + eapply dangling_nil; [exact E2|]. exists c, n, ov. auto.
+    + eapply dangling_nil; [exact E3|]. exists c, n, ov. auto.
+  - intros H.
+    assert (forall k, dangling k os = []) as Hd.
+    { intros k. apply dangling_nil. intros t (c & n & ov & Hin & Hk & Ht). subst. apply (H c n ov Hin). }
+    rewrite !Hd. reflexivity.
+Qed.
+
+Lemma refs_validated_ok_false d :
+  refs_validated_ok d = false <-> a_bad_ref (preorder_objects (d_objects d)).
+Proof.
+  split.
+  - unfold refs_validated_ok, refs_candidates. set (os := preorder_objects (d_objects d)). intros H.
+    assert (exists k e l, dangling k os = e :: l) as (k & e & l & Hk).
+    { destruct (dangling KBlock os) eqn:E1; [|eauto].
+      destruct (dangling KRegister os) eqn:E2; [|eauto].
+      destruct (dangling KCommand os) eqn:E3; [discriminate|eauto]. }
+    apply dangling_cons in Hk. destruct Hk as (t & (c & n & ov & Hin & Hk & Ht) & Hno). subst.
+    exists c, n, ov. auto.
+  - intros (c & n & ov & Hin & Hno). destruct (refs_validated_ok d) eqn:E; [|reflexivity].
+    apply refs_validated_ok_true in E. exfalso. apply Hno. apply (E c n ov Hin).
+Qed.
+
+(* ================================================================== *)
+(* duplicates: ~NoDup (map key l)  <->  two positions share a key        *)
+(* ================================================================== *)
+
+Lemma two_share_not_nodup {A} (key : A -> string) l : two_share key l <-> ~ NoDup (map key l).
+Proof.
+  split.
+  - intros (l1 & x & l2 & y & l3 & -> & E) Hnd.
+    rewrite map_app in Hnd. cbn in Hnd. apply NoDup_remove_2 in Hnd. apply Hnd.
+    apply in_or_app. right. rewrite map_app. apply in_or_app. right. cbn. left. congruence.
+  - induction l as [|x t IH]; cbn; intros H; [exfalso; apply H; constructor|].
+    destruct (in_dec string_dec (key x) (map key t)) as [Hin|Hnin].
+    + apply in_map_iff in Hin. destruct Hin as (y & Hy & Hin). apply in_split in Hin.
+      destruct Hin as (l2 & l3 & ->). exists [], x, l2, y, l3. split; [reflexivity|congruence].
+    + destruct IH as (l1 & a & l2 & b & l3 & -> & E).
+      { intros Hnd. apply H. constructor; assumption. }
+      exists (x :: l1), a, l2, b, l3. split; [reflexivity|assumption].
+Qed.
+
+Lemma NoDup_map_inj {A B} (f : A -> B) (l : list A) :
+  (forall x y, f x = f y -> x = y) -> (NoDup (map f l) <-> NoDup l).
+Proof.
+  intros inj. induction l as [|x t IH]; cbn; [split; constructor|].
+  split; intros H; inversion H; subst; constructor.
+  - intros Hin. apply H2. apply in_map. assumption.
+  - apply IH. assumption.
+  - intros Hin. apply in_map_iff in Hin. destruct Hin as (y & E & Hy). apply inj in E. subst. contradiction.
+  - apply IH. assumption.
+Qed.
+
+Lemma NoDup_pair_none (l : list string) : NoDup (map (fun s => (s, @None string)) l) <-> NoDup l.
+Proof. apply NoDup_map_inj. intros x y H. inversion H. reflexivity. Qed.
+
+Lemma forallb_false {A} (p : A -> bool) l : forallb p l = false <-> exists x, In x l /\ p x = false.
+Proof.
+  induction l as [|x t IH]; cbn; [split; [discriminate|intros (? & [] & _)]|].
+  rewrite andb_false_iff, IH. split.
+  - intros [H|(y & Hy & Hp)]; [exists x; auto|exists y; auto].
+  - intros (y & [<-|Hy] & Hp); [left; assumption|right; exists y; auto].
+Qed.
+
+Lemma fresh_false_u l : fresh_u [] l = false <-> ~ NoDup l.
+Proof.
+  rewrite <- (fresh_walk_nodup uid_eqb uid_eqb_spec). destruct (fresh_u [] l); split; intro H; congruence.
+Qed.
+
+Lemma fresh_false_s l : fresh_s [] l = false <-> ~ NoDup l.
+Proof.
+  rewrite <- (fresh_walk_nodup String.eqb str_eqb_spec). destruct (fresh_s [] l); split; intro H; congruence.
+Qed.
+
+
+
+(* ================================================================== *)
+(* names_normalized commutes with the pre-order traversal              *)
+(* ================================================================== *)
+
+Section Norm.
+  Context (bs : list boundary).
+  Notation N := (norm_object bs).
+  Notation P := (to_pascal bs).
+  Notation S := (to_snake bs).
+
+  Lemma pre_norm : forall o, pre (N o) = map N (pre o).
+  Proof.
+    induction o using object_ind'; cbn; try reflexivity.
+    f_equal. induction H as [|x t Hx Ht IH]; cbn; [reflexivity|].
+    rewrite map_app, Hx, IH. reflexivity.
+  Qed.
+
+  Lemma preorder_norm objs : preorder_objects (map N objs) = map N (preorder_objects objs).
+  Proof.
+    rewrite !preorder_objects_pre. induction objs as [|o t IH]; cbn; [reflexivity|].
+    rewrite map_app, pre_norm, IH. reflexivity.
+  Qed.
+
+  Lemma norm_name o : object_name (N o) = P (object_name o).
+  Proof. destruct o; reflexivity. Qed.
+  Lemma norm_cfg o : object_cfg (N o) = object_cfg o.
+  Proof. destruct o; reflexivity. Qed.
+  Lemma norm_kind o : object_kind (N o) = object_kind o.
+  Proof. destruct o; reflexivity. Qed.
+  Lemma norm_sets o : object_field_sets (N o) = map (map (norm_field bs)) (object_field_sets o).
+  Proof. destruct o; reflexivity. Qed.
+  Lemma norm_ov_kind ov : override_kind (norm_override bs ov) = override_kind ov.
+  Proof. destruct ov; reflexivity. Qed.
+  Lemma norm_ov_target ov : override_target (norm_override bs ov) = P (override_target ov).
+  Proof. destruct ov; reflexivity. Qed.
+
+  Lemma norm_field_enums fs : field_enums (map (norm_field bs) fs) = map (norm_enum bs) (field_enums fs).
+  Proof.
+    induction fs as [|f t IH]; [reflexivity|].
+    cbn [map]. rewrite !field_enums_cons, map_app, IH. f_equal.
+    destruct f as [c n a b cv s e]; cbn. destruct cv as [[tn ut|en ut]|]; reflexivity.
+  Qed.
+
+  Lemma norm_sets_enums sets :
+    sets_enums (map (map (norm_field bs)) sets) = map (norm_enum bs) (sets_enums sets).
+  Proof.
+    unfold sets_enums. induction sets as [|fs t IH]; cbn; [reflexivity|].
+    rewrite map_app, norm_field_enums, IH. reflexivity.
+  Qed.
+
+  Lemma norm_device_enums os : device_enums (map N os) = map (norm_enum bs) (device_enums os).
+  Proof.
+    induction os as [|o t IH]; [reflexivity|].
+    cbn [map]. rewrite !device_enums_cons, map_app, IH, norm_sets, norm_sets_enums. reflexivity.
+  Qed.
+
+  (* ---------- cfg-free ---------- *)
+
+  Lemma cfg_free_enum os e :
+    Forall cfg_free_object os -> In e (device_enums os) ->
+    e_cfg e = None /\ Forall cfg_free_variant (e_variants e).
+  Proof.
+    intros Hf Hin. unfold device_enums in Hin. apply in_flat_map in Hin. destruct Hin as (o & Ho & Hin).
+    rewrite Forall_forall in Hf. destruct (Hf o Ho) as [_ Hsets].
+    unfold object_enums in Hin. apply in_flat_map in Hin. destruct Hin as (fs & Hfs & Hin).
+    rewrite Forall_forall in Hsets. specialize (Hsets fs Hfs).
+    unfold field_enums in Hin. apply in_flat_map in Hin. destruct Hin as (f & Hfin & Hin).
+    rewrite Forall_forall in Hsets. destruct (Hsets f Hfin) as [_ Hc].
+    destruct (f_conv f) as [[tn ut|en ut]|]; try contradiction.
+    destruct Hin as [<-|[]]. assumption.
+  Qed.
+
+  (* ---------- the five clauses ---------- *)
+
+  Lemma clause_object os :
+    Forall cfg_free_object os ->
+    (fresh_u [] (map object_uid (map N os)) = false <-> spec_dup_object bs os).
+  Proof.
+    intros Hf. rewrite fresh_false_u. unfold spec_dup_object. rewrite two_share_not_nodup.
+    assert (map object_uid (map N os) = map (fun s => (s, @None string)) (map (fun o => P (object_name o)) os)) as ->.
+    { rewrite !map_map. apply map_ext_in. intros o Ho. unfold object_uid. rewrite norm_name, norm_cfg.
+      rewrite Forall_forall in Hf. destruct (Hf o Ho) as [-> _]. reflexivity. }
+    rewrite NoDup_pair_none. reflexivity.
+  Qed.
+
+  Lemma clause_field os : fields_okb (map N os) = false <-> spec_dup_field bs os.
+  Proof.
+    unfold fields_okb, spec_dup_field. rewrite forallb_false. split.
+    - intros (o' & Ho' & Hf). apply in_map_iff in Ho'. destruct Ho' as (o & <- & Ho).
+      apply forallb_false in Hf. destruct Hf as (fs' & Hfs' & Hd). rewrite norm_sets in Hfs'.
+      apply in_map_iff in Hfs'. destruct Hfs' as (fs & <- & Hfs).
+      exists o, fs. repeat split; try assumption.
+      apply two_share_not_nodup. apply fresh_false_s in Hd. rewrite map_map in Hd. exact Hd.
+    - intros (o & fs & Ho & Hfs & Hd). exists (N o). split; [apply in_map; assumption|].
+      apply forallb_false. exists (map (norm_field bs) fs). split.
+      + rewrite norm_sets. apply in_map. assumption.
+      + apply fresh_false_s. rewrite map_map. apply two_share_not_nodup in Hd. exact Hd.
+  Qed.
+
+  Lemma clause_enum os :
+    Forall cfg_free_object os ->
+    (fresh_u [] (map eid (device_enums (map N os))) = false <-> spec_dup_enum bs os).
+  Proof.
+    intros Hf. rewrite fresh_false_u. unfold spec_dup_enum. rewrite two_share_not_nodup, norm_device_enums.
+    assert (map eid (map (norm_enum bs) (device_enums os)) =
+            map (fun s => (s, @None string)) (map (fun e => P (e_name e)) (device_enums os))) as ->.
+    { rewrite !map_map. apply map_ext_in. intros e He. unfold eid. cbn.
+      destruct (cfg_free_enum os e Hf He) as [-> _]. reflexivity. }
+    rewrite NoDup_pair_none. reflexivity.
+  Qed.
+
+  Lemma clause_variant os :
+    Forall cfg_free_object os ->
+    (forallb variants_ok (device_enums (map N os)) = false <-> spec_dup_variant bs os).
+  Proof.
+    intros Hf. rewrite forallb_false, norm_device_enums. unfold spec_dup_variant.
+    assert (forall e, In e (device_enums os) ->
+              map vid (e_variants (norm_enum bs e)) =
+              map (fun s => (s, @None string)) (map (fun v => P (v_name v)) (e_variants e))) as Hv.
+    { intros e He. cbn. rewrite !map_map. apply map_ext_in. intros v Hvin. unfold vid. cbn.
+      destruct (cfg_free_enum os e Hf He) as [_ Hvs]. rewrite Forall_forall in Hvs.
+      rewrite (Hvs v Hvin). reflexivity. }
+    split.
+    - intros (e' & He' & Hd). apply in_map_iff in He'. destruct He' as (e & <- & He).
+      exists e. split; [assumption|]. apply two_share_not_nodup.
+      unfold variants_ok in Hd. apply fresh_false_u in Hd. rewrite (Hv e He), NoDup_pair_none in Hd. exact Hd.
+    - intros (e & He & Hd). exists (norm_enum bs e). split; [apply in_map; assumption|].
+      unfold variants_ok. apply fresh_false_u. rewrite (Hv e He), NoDup_pair_none.
+      apply two_share_not_nodup in Hd. exact Hd.
+  Qed.
+
+  Lemma clause_ref os : a_bad_ref (map N os) <-> spec_bad_ref bs os.
+  Proof.
+    unfold a_bad_ref, spec_bad_ref, has_real. split.
+    - intros (c & n & ov & Hin & Hno). apply in_map_iff in Hin. destruct Hin as (o & Heq & Ho).
+      destruct o; cbn in Heq; try discriminate. inversion Heq; subst.
+      exists c, name, ov0. split; [assumption|].
+      intros (o1 & Ho1 & Hk & Hn). apply Hno. exists (N o1). split; [apply in_map; assumption|].
+      rewrite norm_kind, norm_name, norm_ov_kind, norm_ov_target. auto.
+    - intros (c & n & ov & Hin & Hno). exists c, (P n), (norm_override bs ov). split.
+      + apply in_map_iff. exists (ORef c n ov). split; [reflexivity|assumption].
+      + intros (o' & Ho' & Hk & Hn). apply in_map_iff in Ho'. destruct Ho' as (o1 & <- & Ho1).
+        rewrite norm_kind, norm_name, norm_ov_kind, norm_ov_target in *. apply Hno. exists o1. auto.
+  Qed.
+End Norm.
+
+(* ================================================================== *)
+(* C14_accept_iff                                                      *)
+(* ================================================================== *)
+
+Theorem accept_iff : forall d, cfg_free d -> (name_ref_check d = false <-> C14_spec_reject d).
+Proof.
+  intros d Hf. unfold cfg_free in Hf. unfold C14_spec_reject, spec_reject.
+  set (bs := dev_boundaries d) in *. set (os := preorder_objects (d_objects d)) in *.
+  assert (Hpre : preorder_objects (d_objects (names_normalized d)) = map (norm_object bs) os).
+  { unfold names_normalized. cbn. apply preorder_norm. }
+  rewrite <- (clause_object bs os Hf), <- (clause_field bs os), <- (clause_enum bs os Hf),
+          <- (clause_variant bs os Hf), <- (clause_ref bs os).
+  unfold name_ref_check.
+  pose proof (names_unique_spec (names_normalized d)) as HU. rewrite Hpre in HU.
+  pose proof (refs_validated_ok_false (names_normalized d)) as HR. rewrite Hpre in HR.
+  unfold uniqueb in HU.
+  destruct (names_unique (names_normalized d)) as [e|].
+  - assert (fresh_u [] (map object_uid (map (norm_object bs) os)) && fields_okb (map (norm_object bs) os) &&
+            fresh_u [] (map eid (device_enums (map (norm_object bs) os))) &&
+            forallb variants_ok (device_enums (map (norm_object bs) os)) = false) as HF.
+    { destruct (_ && _ && _ && _); [|reflexivity]. destruct HU as [_ HU]. specialize (HU eq_refl). discriminate. }
+    rewrite !andb_false_iff in HF. split; [intros _|reflexivity]. tauto.
+  - destruct HU as [HU _]. specialize (HU eq_refl). rewrite !andb_true_iff in HU.
+    destruct HU as (((U1 & U2) & U3) & U4). rewrite U1, U2, U3, U4, HR.
+    split; [intros H; repeat right; assumption|].
+    intros [H|[H|[H|[H|H]]]]; try discriminate. assumption.
+Qed.
+
+
+
+(* ================================================================== *)
+(* ref lowering: fuel, termination, acyclicity                         *)
+(* ================================================================== *)
+
+Notation OOF := (Fail OutOfFuel).
+
+Lemma mapO_mono {A B} (g g' : A -> outcome B) l :
+  (forall x, In x l -> g x <> OOF -> g' x = g x) ->
+  mapO g l <> OOF -> mapO g' l = mapO g l.
+Proof.
+  induction l as [|a t IH]; intros H Hne; [reflexivity|].
+  cbn [mapO] in *.
+  destruct (g a) as [b|k] eqn:Ea.
+  - rewrite (H a (or_introl eq_refl)) by (rewrite Ea; discriminate). rewrite Ea.
+    cbn [bind] in *. rewrite IH.
+    + reflexivity.
+    + intros x Hx Hn. apply H; [right; assumption|assumption].
+    + intros E. apply Hne. rewrite E. reflexivity.
+  - cbn [bind] in Hne. rewrite (H a (or_introl eq_refl)); [rewrite Ea; reflexivity|].
+    rewrite Ea. intros E. apply Hne. inversion E. reflexivity.
+Qed.
+
+Lemma mapO_not_oof {A B} (g : A -> outcome B) l :
+  (forall x, In x l -> g x <> OOF) -> mapO g l <> OOF.
+Proof.
+  induction l as [|a t IH]; intros H; cbn; [discriminate|].
+  pose proof (H a (or_introl eq_refl)) as Ha. destruct (g a) as [b|k]; cbn; [|intros E; apply Ha; inversion E; reflexivity].
+  assert (mapO g t <> OOF) as Ht by (apply IH; intros; apply H; right; assumption).
+  destruct (mapO g t); cbn; [discriminate|exact Ht].
+Qed.
+
+Lemma mapO_ok_inv {A B} (g : A -> outcome B) l r :
+  mapO g l = Ok r -> forall x, In x l -> exists b, g x = Ok b.
+Proof.
+  revert r. induction l as [|a t IH]; intros r H x Hx; [contradiction|]. cbn in H.
+  destruct (g a) as [b|k] eqn:Ea; cbn in H; [|discriminate].
+  destruct (mapO g t) as [bs|k] eqn:Et; cbn in H; [|discriminate].
+  destruct Hx as [<-|Hx]; [eauto|]. eapply IH; eauto.
+Qed.
+
+Lemma mapO_ok_or_oof {A B} (g : A -> outcome B) l :
+  (forall x, In x l -> (exists b, g x = Ok b) \/ g x = OOF) ->
+  (exists r, mapO g l = Ok r) \/ mapO g l = OOF.
+Proof.
+  induction l as [|a t IH]; intros H; cbn; [left; eauto|].
+  destruct (H a (or_introl eq_refl)) as [(b & ->)| -> ]; cbn; [|right; reflexivity].
+  destruct IH as [(r & ->)| -> ]; cbn; [intros; apply H; right; assumption|left; eauto|right; reflexivity].
+Qed.
+
+Section Lowering.
+  Context (dev : list object).
+
+  Lemma get_method_mono : forall f o,
+    get_method f dev o <> OOF -> get_method (S f) dev o = get_method f dev o.
+  Proof.
+    induction f as [|f IH]; intros o H; [exfalso; apply H; reflexivity|].
+    destruct o; try reflexivity.
+    - (* block *)
+      change (get_method (S f) dev (OBlock c name address_offset rep objs))
+        with (do ms <- mapO (get_method f dev) objs;
+              Ok ((to_snake_default name, name), (name, map fst ms) :: flat_map snd ms)) in *.
+      change (get_method (S (S f)) dev (OBlock c name address_offset rep objs))
+        with (do ms <- mapO (get_method (S f) dev) objs;
+              Ok ((to_snake_default name, name), (name, map fst ms) :: flat_map snd ms)).
+      rewrite (mapO_mono (get_method f dev) (get_method (S f) dev)); [reflexivity| |].
+      + intros x _ Hx. apply IH. assumption.
+      + intros E. apply H. rewrite E. reflexivity.
+    - (* ref *)
+      cbn [get_method] in *. destruct (search_object (override_target ov) dev) as [tgt|]; [|reflexivity].
+      destruct (okind_eqb (object_kind tgt) (override_kind ov)); [|reflexivity].
+      rewrite IH; [reflexivity|]. intros E. apply H. rewrite E. reflexivity.
+  Qed.
+
+  Lemma get_method_mono_le : forall f f' o,
+    (f <= f')%nat -> get_method f dev o <> OOF -> get_method f' dev o = get_method f dev o.
+  Proof.
+    intros f f' o Hle H. induction Hle as [|m Hle IH]; [reflexivity|].
+    rewrite get_method_mono; [assumption|]. rewrite IH. assumption.
+  Qed.
+
+  Definition term (o : object) : Prop := exists f, get_method f dev o <> OOF.
+
+  Lemma term_common : forall objs, Forall term objs ->
+    exists f, forall x, In x objs -> get_method f dev x <> OOF.
+  Proof.
+    induction 1 as [|x t (fx & Hx) Ht (ft & IH)]; [exists O; intros ? []|].
+    exists (Nat.max fx ft). intros y [<-|Hy].
+    - rewrite (get_method_mono_le fx); [assumption|lia|assumption].
+    - rewrite (get_method_mono_le ft); [apply IH; assumption|lia|apply IH; assumption].
+  Qed.
+
+  (* a block ref with target t occurs in the subtree of o *)
+  Definition bref_in (t : string) (o : object) : Prop :=
+    exists x, In x (pre o) /\ is_block_ref_to t x.
+
+  Definition targets_term (o : object) : Prop :=
+    forall t, bref_in t o ->
+    forall c off rep objs, search_object t dev = Some (OBlock c t off rep objs) -> term (OBlock c t off rep objs).
+
+  Lemma term_obj : forall o, targets_term o -> term o.
+  Proof.
+    induction o using object_ind'; intros Ht.
+    - (* block *)
+      assert (Forall term objs) as Hall.
+      { rewrite Forall_forall in *. intros x Hx. apply H; [assumption|].
+        intros t (y & Hy & Hr). apply Ht. exists y. split; [|assumption].
+        cbn. right. apply in_flat_map. exists x. auto. }
+      destruct (term_common objs Hall) as (f & Hf). exists (S f).
+      change (get_method (S f) dev (OBlock c n off rep objs))
+        with (do ms <- mapO (get_method f dev) objs;
+              Ok ((to_snake_default n, n), (n, map fst ms) :: flat_map snd ms)).
+      pose proof (mapO_not_oof (get_method f dev) objs Hf) as Hm.
+      destruct (mapO (get_method f dev) objs); cbn; [discriminate|intros E; apply Hm; inversion E; reflexivity].
+    - exists 1%nat. discriminate.
+    - exists 1%nat. discriminate.
+    - exists 1%nat. discriminate.
+    - (* ref *)
+      destruct (search_object (override_target ov) dev) as [tgt|] eqn:Es.
+      2:{ exists 1%nat. cbn. rewrite Es. discriminate. }
+      destruct (okind_eqb (object_kind tgt) (override_kind ov)) eqn:Ek.
+      2:{ exists 1%nat. cbn. rewrite Es, Ek. discriminate. }
+      assert (term tgt) as (f & Hf).
+      { destruct (search_object_some _ _ _ Es) as [_ Hname].
+        destruct ov as [t a rp|t acc a al rs rp|t a al rp]; cbn in *.
+        - destruct tgt; cbn in Ek; try discriminate. cbn in Hname. subst.
+          apply (Ht t); [|assumption]. exists (ORef c n (OvBlock t a rp)). split; [left; reflexivity|].
+          exists c, n, a, rp. reflexivity.
+        - destruct tgt; cbn in Ek; try discriminate. exists 1%nat. discriminate.
+        - destruct tgt; cbn in Ek; try discriminate. exists 1%nat. discriminate. }
+      exists (S f). cbn [get_method]. rewrite Es, Ek.
+      destruct (get_method f dev tgt); cbn; [discriminate|intros E; apply Hf; inversion E; reflexivity].
+  Qed.
+
+  (* ---------- descending along successful calls ---------- *)
+
+  Lemma ok_descend : forall o f r, get_method f dev o = Ok r ->
+    forall x, In x (pre o) -> exists f' r', (f' <= f)%nat /\ get_method f' dev x = Ok r'.
+  Proof.
+    induction o using object_ind'; intros f res Hr x Hx;
+      try (cbn in Hx; destruct Hx as [<-|[]]; exists f, res; split; [lia|assumption]).
+    cbn in Hx. destruct Hx as [<-|Hx]; [exists f, res; split; [lia|assumption]|].
+    destruct f as [|f]; [discriminate|].
+    change (get_method (S f) dev (OBlock c n off rep objs))
+      with (do ms <- mapO (get_method f dev) objs;
+            Ok ((to_snake_default n, n), (n, map fst ms) :: flat_map snd ms)) in Hr.
+    destruct (mapO (get_method f dev) objs) as [ms|k] eqn:Em; cbn in Hr; [|discriminate].
+    apply in_flat_map in Hx. destruct Hx as (ch & Hch & Hx).
+    destruct (mapO_ok_inv _ _ _ Em ch Hch) as (b & Hb).
+    rewrite Forall_forall in H. destruct (H ch Hch f b Hb x Hx) as (f' & r' & Hle & Hok).
+    exists f', r'. split; [lia|assumption].
+  Qed.
+
+  Lemma ok_descend_strict : forall c n off rep objs f r,
+    get_method f dev (OBlock c n off rep objs) = Ok r ->
+    forall x, In x (flat_map pre objs) -> exists f' r', (f' < f)%nat /\ get_method f' dev x = Ok r'.
+  Proof.
+    intros c n off rep objs f r Hr x Hx. destruct f as [|f]; [discriminate|].
+    change (get_method (S f) dev (OBlock c n off rep objs))
+      with (do ms <- mapO (get_method f dev) objs;
+            Ok ((to_snake_default n, n), (n, map fst ms) :: flat_map snd ms)) in Hr.
+    destruct (mapO (get_method f dev) objs) as [ms|k] eqn:Em; cbn in Hr; [|discriminate].
+    apply in_flat_map in Hx. destruct Hx as (ch & Hch & Hx).
+    destruct (mapO_ok_inv _ _ _ Em ch Hch) as (b & Hb).
+    destruct (ok_descend ch f b Hb x Hx) as (f' & r' & Hle & Hok).
+    exists f', r'. split; [lia|assumption].
+  Qed.
+
+  Lemma ok_ref_target : forall c n t a rp f r,
+    get_method f dev (ORef c n (OvBlock t a rp)) = Ok r ->
+    exists f' cc off rep objs r', (f' < f)%nat /\
+      search_object t dev = Some (OBlock cc t off rep objs) /\
+      get_method f' dev (OBlock cc t off rep objs) = Ok r'.
+  Proof.
+    intros c n t a rp f r Hr. destruct f as [|f]; [discriminate|]. cbn [get_method override_target override_kind] in Hr.
+    destruct (search_object t dev) as [tgt|] eqn:Es; [|discriminate].
+    destruct (okind_eqb (object_kind tgt) KBlock) eqn:Ek; [|discriminate].
+    destruct (get_method f dev tgt) as [m|k] eqn:Em; cbn in Hr; [|discriminate].
+    destruct (search_object_some _ _ _ Es) as [_ Hn].
+    destruct tgt; cbn in Ek; try discriminate. cbn in Hn. subst.
+    exists f, c0, address_offset, rep, objs, m. split; [lia|]. split; [reflexivity|assumption].
+  Qed.
+
+  (* ---------- refs_resolve: no `expect` fires ---------- *)
+
+  Definition refs_resolve : Prop :=
+    forall c n ov, In (ORef c n ov) (preorder_objects dev) ->
+    exists tgt, search_object (override_target ov) dev = Some tgt /\ object_kind tgt = override_kind ov.
+
+  Lemma child_in_dev : forall c n off rep objs x,
+    In (OBlock c n off rep objs) (preorder_objects dev) -> In x objs -> In x (preorder_objects dev).
+  Proof.
+    intros c n off rep objs x Hb Hx. rewrite preorder_objects_pre in *.
+    eapply flat_pre_trans; [exact Hb|]. cbn. right. apply in_flat_map. exists x. split; [assumption|apply pre_self].
+  Qed.
+
+  Lemma okind_eqb_refl k : okind_eqb k k = true.
+  Proof. destruct k; reflexivity. Qed.
+
+  Lemma no_assert : refs_resolve -> forall f o, In o (preorder_objects dev) ->
+    (exists r, get_method f dev o = Ok r) \/ get_method f dev o = OOF.
+  Proof.
+    intros Hres. induction f as [|f IH]; intros o Ho; [right; reflexivity|].
+    destruct o; try (left; eexists; reflexivity).
+    - change (get_method (S f) dev (OBlock c name address_offset rep objs))
+        with (do ms <- mapO (get_method f dev) objs;
+              Ok ((to_snake_default name, name), (name, map fst ms) :: flat_map snd ms)).
+      destruct (mapO_ok_or_oof (get_method f dev) objs) as [(ms & ->)| -> ]; cbn.
+      + intros x Hx. apply IH. eapply child_in_dev; eassumption.
+      + left. eauto.
+      + right. reflexivity.
+    - cbn [get_method]. destruct (Hres c name ov Ho) as (tgt & Es & Ek). rewrite Es, Ek, okind_eqb_refl.
+      destruct (search_object_some _ _ _ Es) as [Hin _].
+      destruct (IH tgt Hin) as [(m & ->)| -> ]; cbn.
+      + left. eauto.
+      + right. reflexivity.
+  Qed.
+End Lowering.
+
+
+
+Section Main.
+  Context (dev : list object).
+
+  Definition nested_rel (t a : string) : Prop := nested dev a t.
+  Definition all_acc : Prop := forall a, Acc nested_rel a.
+
+  Lemma rank_acc : acyclic dev -> all_acc.
+  Proof.
+    intros (rank & H).
+    assert (forall n a, (rank a < n)%nat -> Acc nested_rel a) as X.
+    { induction n as [|n IH]; intros a Ha; [lia|]. constructor. intros t Ht.
+      apply IH. specialize (H a t Ht). lia. }
+    intros a. apply (X (S (rank a))). lia.
+  Qed.
+
+  Lemma acc_term_block : forall a, Acc nested_rel a ->
+    forall c off rep objs, search_object a dev = Some (OBlock c a off rep objs) ->
+    term dev (OBlock c a off rep objs).
+  Proof.
+    induction 1 as [a _ IH]. intros c off rep objs Hs. apply term_obj.
+    intros t (x & Hx & Hr) c' off' rep' objs' Hs'. apply (IH t); [|assumption].
+    exists c, off, rep, objs. split; [assumption|]. exists x. split; [|assumption].
+    rewrite preorder_objects_pre. cbn in Hx. destruct Hx as [<-|Hx]; [|assumption].
+    destruct Hr as (cx & nx & ax & rx & Hr). discriminate.
+  Qed.
+
+  Lemma acc_terminates : all_acc -> forall root, exists f, lower f root dev <> OOF.
+  Proof.
+    intros Hacc root.
+    assert (Forall (term dev) dev) as Hall.
+    { apply Forall_forall. intros o Ho. apply term_obj. intros t Hb c off rep objs Hs.
+      apply acc_term_block; [apply Hacc|assumption]. }
+    destruct (term_common dev dev Hall) as (f & Hf). exists f. unfold lower.
+    pose proof (mapO_not_oof (get_method f dev) dev Hf) as Hm.
+    destruct (mapO (get_method f dev) dev); cbn; [discriminate|intros E; apply Hm; inversion E; reflexivity].
+  Qed.
+
+  Lemma ok_acc : forall f a c off rep objs r,
+    search_object a dev = Some (OBlock c a off rep objs) ->
+    get_method f dev (OBlock c a off rep objs) = Ok r -> Acc nested_rel a.
+  Proof.
+    induction f as [f IH] using lt_wf_ind. intros a c off rep objs r Hs Hok.
+    constructor. intros t (c' & off' & rep' & objs' & Hs' & (x & Hx & (cx & nx & ax & rx & ->))).
+    rewrite Hs in Hs'. inversion Hs'; subst c' off' rep' objs'. rewrite preorder_objects_pre in Hx.
+    destruct (ok_descend_strict dev _ _ _ _ _ _ _ Hok _ Hx) as (f1 & r1 & Hlt1 & Hok1).
+    destruct (ok_ref_target dev _ _ _ _ _ _ _ Hok1) as (f2 & cc & off2 & rep2 & objs2 & r2 & Hlt2 & Hs2 & Hok2).
+    apply (IH f2) with (c := cc) (off := off2) (rep := rep2) (objs := objs2) (r := r2); [lia|assumption|assumption].
+  Qed.
+
+  Lemma lower_ok_all : forall F root bl, lower F root dev = Ok bl ->
+    forall o, In o (preorder_objects dev) -> exists f r, (f <= F)%nat /\ get_method f dev o = Ok r.
+  Proof.
+    intros F root bl H o Ho. unfold lower in H.
+    destruct (mapO (get_method F dev) dev) as [ms|k] eqn:Em; cbn in H; [|discriminate].
+    rewrite preorder_objects_pre in Ho. apply in_flat_map in Ho. destruct Ho as (top & Htop & Ho).
+    destruct (mapO_ok_inv _ _ _ Em top Htop) as (b & Hb).
+    destruct (ok_descend dev top F b Hb o Ho) as (f & r & Hle & Hok). eauto.
+  Qed.
+
+  Lemma nested_needs_block : forall a t, nested dev a t ->
+    exists c off rep objs, search_object a dev = Some (OBlock c a off rep objs).
+  Proof. intros a t (c & off & rep & objs & Hs & _). eauto. Qed.
+
+  Lemma ok_all_acc : forall F root bl, lower F root dev = Ok bl -> all_acc.
+  Proof.
+    intros F root bl H a.
+    destruct (search_object a dev) as [o|] eqn:Es.
+    - destruct (search_object_some _ _ _ Es) as [Hin Hn].
+      destruct o; try (constructor; intros t Ht; destruct (nested_needs_block _ _ Ht) as (? & ? & ? & ? & E);
+                       rewrite Es in E; discriminate).
+      cbn in Hn. subst name.
+      destruct (lower_ok_all F root bl H _ Hin) as (f & r & _ & Hok).
+      eapply ok_acc; eassumption.
+    - constructor. intros t Ht. destruct (nested_needs_block _ _ Ht) as (? & ? & ? & ? & E).
+      rewrite Es in E. discriminate.
+  Qed.
+
+  (* ---------- a rank from the least sufficient fuel ---------- *)
+
+  Definition okb (r : outcome (method * list lir_block)) : bool := match r with Ok _ => true | _ => false end.
+
+  Fixpoint least_from (p : nat -> bool) (k fuel : nat) : nat :=
+    match fuel with
+    | O => k
+    | S fu => if p k then k else least_from p (S k) fu
+    end.
+
+  Lemma least_from_spec p : forall fuel k j,
+    (k <= j <= k + fuel)%nat -> p j = true ->
+    p (least_from p k fuel) = true /\ (least_from p k fuel <= j)%nat.
+  Proof.
+    induction fuel as [|fu IH]; intros k j Hj Hp; cbn.
+    - assert (j = k) by lia. subst. auto.
+    - destruct (p k) eqn:E; [split; [assumption|lia]|].
+      assert (j <> k) by (intros ->; congruence).
+      apply IH; [lia|assumption].
+  Qed.
+
+  Definition mfuel (F : nat) (o : object) : nat := least_from (fun f => okb (get_method f dev o)) 0 F.
+
+  Lemma mfuel_ok F o f r : (f <= F)%nat -> get_method f dev o = Ok r ->
+    (exists r', get_method (mfuel F o) dev o = Ok r') /\ (mfuel F o <= f)%nat.
+  Proof.
+    intros Hle Hok.
+    destruct (least_from_spec (fun f => okb (get_method f dev o)) F 0 f) as [H1 H2]; [lia|rewrite Hok; reflexivity|].
+    split; [|exact H2]. fold (mfuel F o) in H1. destruct (get_method (mfuel F o) dev o); [eauto|discriminate].
+  Qed.
+
+  Definition fuel_rank (F : nat) (a : string) : nat :=
+    match search_object a dev with Some o => mfuel F o | None => O end.
+
+  Lemma fuel_rank_decreases : forall F root bl, lower F root dev = Ok bl ->
+    forall a t, nested dev a t -> (fuel_rank F t < fuel_rank F a)%nat.
+  Proof.
+    intros F root bl H a t (c & off & rep & objs & Hs & (x & Hx & (cx & nx & ax & rx & ->))).
+    destruct (search_object_some _ _ _ Hs) as [Hin _].
+    destruct (lower_ok_all F root bl H _ Hin) as (f0 & r0 & Hle0 & Hok0).
+    destruct (mfuel_ok F _ f0 r0 Hle0 Hok0) as ((rm & Hokm) & Hlem).
+    rewrite preorder_objects_pre in Hx.
+    destruct (ok_descend_strict dev _ _ _ _ _ _ _ Hokm _ Hx) as (f1 & r1 & Hlt1 & Hok1).
+    destruct (ok_ref_target dev _ _ _ _ _ _ _ Hok1) as (f2 & cc & off2 & rep2 & objs2 & r2 & Hlt2 & Hs2 & Hok2).
+    unfold fuel_rank. rewrite Hs, Hs2.
+    destruct (mfuel_ok F _ f2 r2 ltac:(lia) Hok2) as (_ & Hle2). lia.
+  Qed.
+
+  Lemma lower_ok_or_oof : refs_resolve dev -> forall f root,
+    (exists bl, lower f root dev = Ok bl) \/ lower f root dev = OOF.
+  Proof.
+    intros Hres f root. unfold lower.
+    destruct (mapO_ok_or_oof (get_method f dev) dev) as [(ms & ->)| -> ]; cbn.
+    - intros x Hx. apply no_assert; [assumption|]. rewrite preorder_objects_pre.
+      apply in_flat_map. exists x. split; [assumption|apply pre_self].
+    - left. eauto.
+    - right. reflexivity.
+  Qed.
+
+  Theorem lowering_terminates_iff_acyclic :
+    refs_resolve dev -> (lowering_terminates dev <-> acyclic dev).
+  Proof.
+    intros Hres. split.
+    - intros (f & Hf). destruct (lower_ok_or_oof Hres f "Root") as [(bl & Hok)|E]; [|contradiction].
+      exists (fuel_rank f). apply (fuel_rank_decreases f "Root" bl Hok).
+    - intros Hac. apply (acc_terminates (rank_acc Hac)).
+  Qed.
+
+  (* a cycle of the nesting relation excludes any rank *)
+  Lemma cyclic_not_acyclic : cyclic dev -> ~ acyclic dev.
+  Proof.
+    intros (a & Hc) (rank & Hr).
+    assert (forall x y, nested_plus dev x y -> (rank y < rank x)%nat) as X.
+    { induction 1 as [x y Hn|x m y Hn _ IH]; [apply Hr; assumption|]. specialize (Hr _ _ Hn). lia. }
+    specialize (X a a Hc). lia.
+  Qed.
+
+  Theorem cycle_diverges : refs_resolve dev -> cyclic dev -> forall fuel root, lower fuel root dev = OOF.
+  Proof.
+    intros Hres Hc fuel root. destruct (lower_ok_or_oof Hres fuel root) as [(bl & Hok)|E]; [|assumption].
+    exfalso. apply (cyclic_not_acyclic Hc). exists (fuel_rank fuel). apply (fuel_rank_decreases fuel root bl Hok).
+  Qed.
+End Main.
+
+(* ================================================================== *)
+(* D11: block A { ref B = block A { .. } }                              *)
+(* ================================================================== *)
+
+Definition d11_ref : object := ORef None "B" (OvBlock "A" (Some 1%Z) None).
+Definition d11_block : object := OBlock None "A" 0%Z None [d11_ref].
+Definition d11_objects : list object := [d11_block].
+
+Lemma d11_no_fuel : forall f,
+  get_method f d11_objects d11_block = OOF /\ get_method f d11_objects d11_ref = OOF.
+Proof.
+  induction f as [|f [IHb IHr]]; [split; reflexivity|]. split.
+  - change (get_method (S f) d11_objects d11_block)
+      with (do ms <- mapO (get_method f d11_objects) [d11_ref];
+            Ok ((to_snake_default "A", "A"), ("A", map fst ms) :: flat_map snd ms)).
+    cbn [mapO]. rewrite IHr. reflexivity.
+  - change (get_method (S f) d11_objects d11_ref)
+      with (match search_object "A" d11_objects with
+            | None => Fail AssertFail
+            | Some tgt =>
+              if okind_eqb (object_kind tgt) KBlock
+              then do m <- get_method f d11_objects tgt; Ok ((to_snake_default "B", snd (fst m)), snd m)
+              else Fail AssertFail
+            end).
+    change (search_object "A" d11_objects) with (Some d11_block). cbn [object_kind d11_block okind_eqb].
+    rewrite IHb. reflexivity.
+Qed.
+
+Lemma d11_lower_diverges : forall fuel root, lower fuel root d11_objects = OOF.
+Proof.
+  intros fuel root. unfold lower.
+  assert (mapO (get_method fuel d11_objects) d11_objects = OOF) as ->; [|reflexivity].
+  change (mapO (get_method fuel d11_objects) d11_objects)
+    with (do b <- get_method fuel d11_objects d11_block; do bs <- Ok []; Ok (b :: bs)).
+  destruct (d11_no_fuel fuel) as [-> _]. reflexivity.
+Qed.
+
+
+Open Scope list_scope.
+
+
+(* ================================================================== *)
+(* Case.v: split without the accumulator                               *)
+(* ================================================================== *)
+
+Definition cons_first (c : ascii) (r : list (list ascii)) : list (list ascii) :=
+  match r with w :: ws => (c :: w) :: ws | [] => [[c]] end.
+
+Definition app_first (w : list ascii) (r : list (list ascii)) : list (list ascii) :=
+  match r with x :: xs => (w ++ x) :: xs | [] => [w] end.
+
+Fixpoint split_rec (bs : list boundary) (prev : option ascii) (l : list ascii) : list (list ascii) :=
+  match l with
+  | [] => [[]]
+  | c :: t =>
+    let r := split_rec bs (Some c) t in
+    if any_one bs c then [] :: r
+    else if split_before bs prev c t then [] :: cons_first c r
+    else cons_first c r
+  end.
+
+Lemma split_rec_nonempty bs : forall l prev, exists w ws, split_rec bs prev l = w :: ws.
+Proof.
+  induction l as [|c t IH]; intros prev; cbn; [eauto|].
+  destruct (IH (Some c)) as (w & ws & ->).
+  destruct (any_one bs c); [eauto|]. destruct (split_before bs prev c t); cbn; eauto.
+Qed.
+
+Lemma split_aux_rec bs : forall l prev word,
+  split_aux bs prev l word = app_first (rev word) (split_rec bs prev l).
+Proof.
+  induction l as [|c t IH]; intros prev word; cbn.
+  - rewrite app_nil_r. reflexivity.
+  - destruct (split_rec_nonempty bs t (Some c)) as (w & ws & E).
+    destruct (any_one bs c).
+    + rewrite IH, E. cbn. rewrite app_nil_r. reflexivity.
+    + destruct (split_before bs prev c t).
+      * rewrite IH, E. cbn. rewrite app_nil_r. reflexivity.
+      * rewrite IH, E. cbn. rewrite <- app_assoc. reflexivity.
+Qed.
+
+Lemma split_eq bs s : split bs s = filter nonempty (split_rec bs None s).
+Proof.
+  unfold split. rewrite split_aux_rec. cbn.
+  destruct (split_rec_nonempty bs s None) as (w & ws & ->). reflexivity.
+Qed.
+
+(* ================================================================== *)
+(* character classes                                                   *)
+(* ================================================================== *)
+
+Ltac all_ascii c :=
+  destruct c as [b0 b1 b2 b3 b4 b5 b6 b7];
+  destruct b0, b1, b2, b3, b4, b5, b6, b7; reflexivity.
+
+Lemma lower_not_upper c : is_upper (to_lower c) = false.
+Proof. all_ascii c. Qed.
+Lemma lower_is_lower c : is_lower (to_lower c) = is_lower c || is_upper c.
+Proof. all_ascii c. Qed.
+Lemma lower_is_digit c : is_digit (to_lower c) = is_digit c.
+Proof. all_ascii c. Qed.
+Lemma lower_delim c : any_one default_boundaries (to_lower c) = any_one default_boundaries c.
+Proof. all_ascii c. Qed.
+Lemma lower_idem c : to_lower (to_lower c) = to_lower c.
+Proof. all_ascii c. Qed.
+Lemma underscore_two c : any_two default_boundaries chr_underscore c = false.
+Proof. all_ascii c. Qed.
+Lemma underscore_delim : any_one default_boundaries chr_underscore = true.
+Proof. reflexivity. Qed.
+
+Notation D := default_boundaries.
+
+Lemma any_two_default p c :
+  any_two D p c =
+  (is_lower p && is_upper c) || (is_upper p && is_digit c) || (is_digit p && is_upper c) ||
+  (is_digit p && is_lower c) || (is_lower p && is_digit c).
+Proof.
+  unfold any_two, default_boundaries. cbn [existsb detect_two].
+  destruct (is_lower p), (is_upper c), (is_upper p), (is_digit c), (is_digit p), (is_lower c); reflexivity.
+Qed.
+
+Lemma any_three_default p c e : any_three D p c e = is_upper p && is_upper c && is_lower e.
+Proof.
+  unfold any_three, default_boundaries. cbn [existsb detect_three].
+  destruct (is_upper p && is_upper c && is_lower e); reflexivity.
+Qed.
+
+Lemma lowered_two p c : any_two D (to_lower p) (to_lower c) = true -> any_two D p c = true.
+Proof.
+  rewrite !any_two_default, !lower_not_upper, !lower_is_lower, !lower_is_digit.
+  destruct (is_lower p), (is_upper c), (is_upper p), (is_digit c), (is_digit p), (is_lower c); cbn; congruence.
+Qed.
+
+(* ================================================================== *)
+(* words produced by split (default boundaries)                        *)
+(* ================================================================== *)
+
+(* no delimiter inside, no boundary between neighbours *)
+Fixpoint chain (w : list ascii) : Prop :=
+  match w with
+  | [] => True
+  | c :: t => any_one D c = false /\
+              match t with c2 :: _ => any_two D c c2 = false | [] => True end /\
+              chain t
+  end.
+
+Definition headok (prev : option ascii) (r : list (list ascii)) : Prop :=
+  match r, prev with
+  | (c2 :: _) :: _, Some p => any_two D p c2 = false
+  | _, _ => True
+  end.
+
+Lemma split_rec_chain : forall l prev,
+  Forall chain (split_rec D prev l) /\ headok prev (split_rec D prev l).
+Proof.
+  induction l as [|c t IH]; intros prev.
+  - cbn. split; [repeat constructor|exact I].
+  - cbn [split_rec]. destruct (IH (Some c)) as [Hall Hhead].
+    destruct (split_rec_nonempty D t (Some c)) as (w & ws & E). rewrite E in *.
+    assert (any_one D c = false -> chain (c :: w)) as Hcw.
+    { intros Hc. cbn [chain]. inversion Hall; subst. split; [assumption|]. split; [|assumption].
+      destruct w; [exact I|]. exact Hhead. }
+    destruct (any_one D c) eqn:Ec.
+    + split; [constructor; [exact I|assumption]|destruct prev; exact I].
+    + destruct (split_before D prev c t) eqn:Es.
+      * split; [|destruct prev; exact I]. constructor; [exact I|]. cbn.
+        inversion Hall; subst. constructor; [apply Hcw; reflexivity|assumption].
+      * split.
+        -- cbn. inversion Hall; subst. constructor; [apply Hcw; reflexivity|assumption].
+        -- cbn. destruct prev as [p|]; [|exact I]. cbn in Es. apply orb_false_iff in Es. destruct Es. assumption.
+Qed.
+
+(* a word that re-splitting (default boundaries) leaves alone *)
+Fixpoint stable (w : list ascii) : Prop :=
+  match w with
+  | [] => True
+  | c :: t => any_one D c = false /\ is_upper c = false /\
+              match t with c2 :: _ => any_two D c c2 = false | [] => True end /\
+              stable t
+  end.
+
+Lemma chain_lower_stable : forall w, chain w -> stable (map to_lower w).
+Proof.
+  induction w as [|c t IH]; intros H; [exact I|].
+  cbn [chain] in H. destruct H as (Hc & Hp & Ht). cbn [map stable].
+  split; [rewrite lower_delim; assumption|]. split; [apply lower_not_upper|]. split; [|apply IH; assumption].
+  destruct t as [|c2 t2]; [exact I|]. cbn [map].
+  destruct (any_two D (to_lower c) (to_lower c2)) eqn:E; [|reflexivity].
+  apply lowered_two in E. congruence.
+Qed.
+
+Definition last_or (prev : option ascii) (w : list ascii) : option ascii :=
+  match w with [] => prev | c :: t => Some (last t c) end.
+
+Lemma last_cons {A} : forall (l : list A) a d, last (a :: l) d = last l a.
+Proof.
+  induction l as [|b l IH]; intros a d; [reflexivity|].
+  change (last (a :: b :: l) d) with (last (b :: l) d). rewrite !IH. reflexivity.
+Qed.
+
+Lemma last_or_cons prev c w : last_or prev (c :: w) = last_or (Some c) w.
+Proof. destruct w as [|c2 t]; [reflexivity|]. unfold last_or. rewrite last_cons. reflexivity. Qed.
+
+Lemma stable_run : forall w prev tail,
+  stable w ->
+  (forall p c t, prev = Some p -> w = c :: t -> any_two D p c = false) ->
+  split_rec D prev (w ++ tail) = app_first w (split_rec D (last_or prev w) tail).
+Proof.
+  induction w as [|c w IH]; intros prev tail Hst Hhead.
+  - cbn. destruct (split_rec_nonempty D tail prev) as (x & xs & ->). reflexivity.
+  - cbn [stable] in Hst. destruct Hst as (Hc & Hu & Hp & Hw).
+    cbn [app split_rec]. rewrite Hc.
+    assert (split_before D prev c (w ++ tail) = false) as ->.
+    { destruct prev as [p|]; [|reflexivity]. cbn [split_before].
+      rewrite (Hhead p c w eq_refl eq_refl). cbn [orb].
+      destruct (w ++ tail) as [|e rest]; [reflexivity|]. rewrite any_three_default, Hu.
+      rewrite andb_false_r. reflexivity. }
+    rewrite IH; [|assumption|].
+    + rewrite last_or_cons.
+      destruct (split_rec_nonempty D tail (last_or (Some c) w)) as (x & xs & ->). reflexivity.
+    + intros p c2 t Hp2 Hw2. inversion Hp2; subst. exact Hp.
+Qed.
+
+Lemma split_rec_join : forall ws prev,
+  Forall stable ws -> Forall (fun w => nonempty w = true) ws ->
+  prev = None \/ prev = Some chr_underscore ->
+  filter nonempty (split_rec D prev (join [chr_underscore] ws)) = ws.
+Proof.
+  induction ws as [|w t IH]; intros prev Hst Hne Hprev; [reflexivity|].
+  inversion Hst as [|? ? Hw Ht]; subst. inversion Hne as [|? ? Hwn Htn]; subst.
+  assert (forall p c r, prev = Some p -> w = c :: r -> any_two D p c = false) as Hhead.
+  { intros p c r Hp _. destruct Hprev as [Hprev|Hprev]; rewrite Hprev in Hp; [discriminate|].
+    inversion Hp; subst. apply underscore_two. }
+  destruct t as [|w2 t2].
+  - cbn [join]. rewrite <- (app_nil_r w) at 1. rewrite stable_run by assumption. cbn. rewrite app_nil_r, Hwn. reflexivity.
+  - cbn [join]. rewrite stable_run by assumption.
+    cbn [app split_rec]. rewrite underscore_delim. cbn [app_first]. rewrite app_nil_r. cbn [filter]. rewrite Hwn.
+    f_equal. apply IH; [assumption|assumption|right; reflexivity].
+Qed.
+
+Lemma filter_nonempty_all (ws : list (list ascii)) : Forall (fun w => nonempty w = true) (filter nonempty ws).
+Proof. apply Forall_forall. intros w Hw. apply filter_In in Hw. apply Hw. Qed.
+
+Lemma map_lower_idem w : map to_lower (map to_lower w) = map to_lower w.
+Proof. rewrite map_map. apply map_ext. intros. apply lower_idem. Qed.
+
+Theorem snake_l_default_idempotent : forall s, snake_l D (snake_l D s) = snake_l D s.
+Proof.
+  intros s. unfold snake_l. set (ws := map word_lower (split D s)).
+  assert (split D (join [chr_underscore] ws) = ws) as ->.
+  { rewrite split_eq. apply split_rec_join; [| |left; reflexivity].
+    - unfold ws. rewrite split_eq. apply Forall_forall. intros w Hw. apply in_map_iff in Hw.
+      destruct Hw as (w0 & <- & Hw0). apply chain_lower_stable. apply filter_In in Hw0. destruct Hw0 as [Hw0 _].
+      destruct (split_rec_chain s None) as [Hall _]. rewrite Forall_forall in Hall. apply Hall. assumption.
+    - unfold ws. apply Forall_forall. intros w Hw. apply in_map_iff in Hw. destruct Hw as (w0 & <- & Hw0).
+      pose proof (filter_nonempty_all (split_aux D None s [])) as Hne. rewrite Forall_forall in Hne.
+      specialize (Hne w0 Hw0). destruct w0; [discriminate|reflexivity]. }
+  f_equal. unfold ws. rewrite map_map. apply map_ext. intros w. apply map_lower_idem.
+Qed.
+
+Lemma la_sl l : la (sl l) = l.
+Proof. apply list_ascii_of_string_of_list_ascii. Qed.
+Lemma sl_la s : sl (la s) = s.
+Proof. apply string_of_list_ascii_of_string. Qed.
+
+Theorem snake_default_idempotent : forall s, to_snake_default (to_snake_default s) = to_snake_default s.
+Proof. intros s. unfold to_snake_default, to_snake. rewrite la_sl, snake_l_default_idempotent. reflexivity. Qed.
+
+(* ================================================================== *)
+(* Pascal: fixed points (any boundaries)                               *)
+(* ================================================================== *)
+
+Lemma concat_cons_first c r : r <> [] -> List.concat (cons_first c r) = c :: List.concat r.
+Proof. destruct r; [congruence|reflexivity]. Qed.
+
+Lemma concat_split_rec bs : forall l prev,
+  Forall (fun c => any_one bs c = false) l -> List.concat (split_rec bs prev l) = l.
+Proof.
+  induction l as [|c t IH]; intros prev H; [reflexivity|]. inversion H; subst.
+  cbn [split_rec]. rewrite H2.
+  destruct (split_rec_nonempty bs t (Some c)) as (w & ws & E).
+  destruct (split_before bs prev c t); cbn [List.concat app]; rewrite concat_cons_first, IH by (try assumption; rewrite E; discriminate); reflexivity.
+Qed.
+
+Lemma concat_filter_nonempty (r : list (list ascii)) : List.concat (filter nonempty r) = List.concat r.
+Proof. induction r as [|w t IH]; [reflexivity|]. destruct w; cbn; [assumption|]. rewrite IH. reflexivity. Qed.
+
+Lemma join_nil_concat (ws : list (list ascii)) : join [] ws = List.concat ws.
+Proof.
+  induction ws as [|w t IH]; [reflexivity|]. destruct t; [cbn; rewrite app_nil_r; reflexivity|].
+  cbn [join List.concat] in *. rewrite IH. reflexivity.
+Qed.
+
+Theorem pascal_fixed : forall bs s,
+  Forall (fun c => any_one bs c = false) (la s) ->
+  Forall (fun w => word_capital w = w) (split bs (la s)) ->
+  to_pascal bs s = s.
+Proof.
+  intros bs s Hd Hw. unfold to_pascal, pascal_l. rewrite join_nil_concat.
+  assert (map word_capital (split bs (la s)) = split bs (la s)) as ->.
+  { rewrite <- (map_id (split bs (la s))) at 2. apply map_ext_in. intros w Hin. rewrite Forall_forall in Hw. auto. }
+  rewrite split_eq, concat_filter_nonempty, concat_split_rec by assumption. apply sl_la.
+Qed.
+
+Open Scope string_scope.
+
+Theorem device_name_check_spec : forall n, device_name_check n = None <-> lenient_pascal n = n.
+Proof.
+  intros n. unfold device_name_check. destruct (String.eqb n (lenient_pascal n)) eqn:E.
+  - apply String.eqb_eq in E. split; [intros _; congruence|reflexivity].
+  - apply String.eqb_neq in E. split; [discriminate|intros H; congruence].
+Qed.
+
+(* ================================================================== *)
+(* accepted definitions: names unique, refs resolve                    *)
+(* ================================================================== *)
+
+Lemma nodup_uid_names os :
+  (forall o, In o os -> object_cfg o = None) -> NoDup (map object_uid os) -> NoDup (map object_name os).
+Proof.
+  intros Hc H. apply NoDup_pair_none.
+  assert (map object_uid os = map (fun s => (s, @None string)) (map object_name os)) as <-; [|assumption].
+  rewrite map_map. apply map_ext_in. intros o Ho. unfold object_uid. rewrite (Hc o Ho). reflexivity.
+Qed.
+
+Lemma name_ref_check_true d :
+  name_ref_check d = true <->
+  names_unique (names_normalized d) = None /\ refs_validated_ok (names_normalized d) = true.
+Proof.
+  unfold name_ref_check. destruct (names_unique (names_normalized d)).
+  - split; [discriminate|intros [H _]; discriminate].
+  - split; [auto|intros [_ H]; exact H].
+Qed.
+
+Lemma accepted_nodup_names d : cfg_free d -> names_unique (names_normalized d) = None ->
+  NoDup (map object_name (preorder_objects (d_objects (names_normalized d)))).
+Proof.
+  intros Hf Hu. apply names_unique_spec in Hu. unfold uniqueb in Hu. rewrite !andb_true_iff in Hu.
+  destruct Hu as (((U1 & _) & _) & _). apply (fresh_walk_nodup uid_eqb uid_eqb_spec) in U1.
+  apply nodup_uid_names; [|assumption].
+  unfold names_normalized. cbn [d_objects]. rewrite preorder_norm. intros o Ho.
+  apply in_map_iff in Ho. destruct Ho as (o0 & <- & Ho0). rewrite norm_cfg.
+  unfold cfg_free in Hf. rewrite Forall_forall in Hf. apply (Hf o0 Ho0).
+Qed.
+
+Lemma refs_ok_resolve objs :
+  NoDup (map object_name (preorder_objects objs)) -> refs_ok (preorder_objects objs) -> refs_resolve objs.
+Proof.
+  intros Hnd Hok c n ov Hin. destruct (Hok c n ov Hin) as (o & Ho & Hk & Hn). exists o.
+  rewrite <- Hn. split; [apply search_finds_declared; assumption|assumption].
+Qed.
+
+Theorem accepted_refs_resolve : forall d, cfg_free d -> name_ref_check d = true ->
+  forall c n ov, In (ORef c n ov) (preorder_objects (d_objects (names_normalized d))) ->
+  exists o, search_object (override_target ov) (d_objects (names_normalized d)) = Some o /\
+            In o (preorder_objects (d_objects (names_normalized d))) /\
+            object_kind o = override_kind ov /\ object_name o = override_target ov.
+Proof.
+  intros d Hf Hc c n ov Hin. apply name_ref_check_true in Hc. destruct Hc as [Hu Hr].
+  apply refs_validated_ok_true in Hr. pose proof (accepted_nodup_names d Hf Hu) as Hnd.
+  destruct (Hr c n ov Hin) as (o & Ho & Hk & Hn). exists o. repeat split; try assumption.
+  rewrite <- Hn. apply search_finds_declared; assumption.
+Qed.
+
+Theorem accepted_lowering_iff_acyclic : forall d, cfg_free d -> name_ref_check d = true ->
+  (lowering_terminates (d_objects (names_normalized d)) <-> acyclic (d_objects (names_normalized d))).
+Proof.
+  intros d Hf Hc. apply lowering_terminates_iff_acyclic.
+  apply name_ref_check_true in Hc. destruct Hc as [Hu Hr].
+  apply refs_ok_resolve; [apply accepted_nodup_names; assumption|apply refs_validated_ok_true; assumption].
+Qed.
+
+(* ================================================================== *)
+(* front-end rejections                                                *)
+(* ================================================================== *)
+
+Lemma find_none_forall {A} (p : A -> bool) l : find p l = None <-> Forall (fun x => p x = false) l.
+Proof.
+  induction l as [|x t IH]; cbn; [split; [constructor|reflexivity]|].
+  destruct (p x) eqn:E.
+  - split; [discriminate|]. intros H. inversion H; subst. congruence.
+  - rewrite IH. split; [intros H; constructor; assumption|intros H; inversion H; assumption].
+Qed.
+
+Lemma first_forbidden_none forb items :
+  first_forbidden forb items = None <-> Forall (fun i => mem_str i forb = false) items.
+Proof. apply find_none_forall. Qed.
+
+Lemma first_unexpected_none allowed keys :
+  first_unexpected allowed keys = None <-> Forall (fun k => mem_str k allowed = true) keys.
+Proof.
+  unfold first_unexpected.
+  assert (find (fun k => negb (mem_str k allowed)) keys = None <->
+          Forall (fun k => mem_str k allowed = true) keys) as X.
+  { rewrite find_none_forall. split; intros H; eapply Forall_impl; try exact H;
+      cbn; intros a Ha; [apply negb_false_iff in Ha|apply negb_false_iff]; assumption. }
+  destruct (find _ keys); [|tauto]. split; [discriminate|]. intros H. apply X in H. discriminate.
+Qed.
+
+Theorem front_dsl_spec : forall n s, front_dsl n s = None <-> shape_ok_dsl s.
+Proof.
+  intros n s. unfold front_dsl, shape_ok_dsl. destruct (os_kind s).
+  - destruct (os_attrs s); [split; [discriminate|intros [H _]; discriminate]|].
+    destruct (os_objects s); [split; [discriminate|intros [_ H]; discriminate]|]. tauto.
+  - destruct (os_attrs s); [split; [discriminate|intros [H _]; discriminate]|].
+    destruct (os_fields s); [split; [discriminate|intros (_ & H & _); discriminate]|].
+    rewrite <- first_forbidden_none. destruct (first_forbidden _ _); [split; [discriminate|intros (_ & _ & H); discriminate]|tauto].
+  - destruct (os_attrs s); [split; [discriminate|intros [H _]; discriminate]|].
+    destruct (os_novalue s); [split; [discriminate|intros (_ & H & _); discriminate]|].
+    destruct (os_basic s); [split; [discriminate|intros (_ & _ & H & _); discriminate]|].
+    destruct (os_in s); [split; [discriminate|intros (_ & _ & _ & H & _); discriminate]|].
+    destruct (os_out s); [split; [discriminate|intros (_ & _ & _ & _ & H & _); discriminate]|].
+    rewrite <- first_forbidden_none.
+    destruct (first_forbidden _ _); [split; [discriminate|intros (_ & _ & _ & _ & _ & H); discriminate]|tauto].
+  - split; [discriminate|contradiction].
+  - split; [discriminate|contradiction].
+Qed.
+
+Theorem front_manifest_spec : forall s, front_manifest s = None <-> shape_ok_manifest s.
+Proof.
+  intros s. unfold front_manifest, shape_ok_manifest. destruct (os_kind s);
+    try apply first_unexpected_none; split; [discriminate|contradiction|discriminate|contradiction].
+Qed.
